@@ -122,15 +122,15 @@ theorem termOf_units {ansi : Bool} {F : Str → Prop} (hF : ∀ t, F t → clean
 
 /-! ### Runs and invariants -/
 
-theorem runG_nil (old : Bool) (cfg : Cfg) (c : St) : runG old cfg [] c = c := rfl
-theorem runG_cons (old : Bool) (cfg : Cfg) (ch : Choice) (s : Schedule) (c : St) :
+theorem runG_nil (old : Proto) (cfg : Cfg) (c : St) : runG old cfg [] c = c := rfl
+theorem runG_cons (old : Proto) (cfg : Cfg) (ch : Choice) (s : Schedule) (c : St) :
     runG old cfg (ch :: s) c = runG old cfg s (stepG old cfg c ch) := rfl
-theorem runG_append (old : Bool) (cfg : Cfg) (s s' : Schedule) (c : St) :
+theorem runG_append (old : Proto) (cfg : Cfg) (s s' : Schedule) (c : St) :
     runG old cfg (s ++ s') c = runG old cfg s' (runG old cfg s c) := by
   simp [runG, List.foldl_append]
 
 /-- An invariant of single steps holds after every schedule. -/
-theorem inv_runG {old : Bool} {cfg : Cfg} {P : St → Prop}
+theorem inv_runG {old : Proto} {cfg : Cfg} {P : St → Prop}
     (hstep : ∀ c ch, P c → P (stepG old cfg c ch)) : ∀ (s : Schedule) (c : St), P c → P (runG old cfg s c) := by
   intro s
   induction s with
@@ -141,7 +141,7 @@ theorem inv_runG {old : Bool} {cfg : Cfg} {P : St → Prop}
 def pastJoin : MainPc → Bool
   | .writing _ .finEnd => true
   | .exited .normal => true
-  | .exited (.raised k) => k.caught
+  | .exited (.raised _) => true
   | _ => false
 
 def beforeSpawn : MainPc → Bool
@@ -154,14 +154,8 @@ def needsStarted : MainPc → Bool
 
 /-- main has executed `Event.set` -/
 def afterSet : MainPc → Bool
-  | .excJoin _ | .finJoin | .writing _ .finEnd | .exited .normal => true
-  | .exited (.raised k) => k.caught
+  | .excJoin _ | .finJoin | .writing _ .finEnd | .exited .normal | .exited (.raised _) => true
   | _ => false
-
-/-- the exception path is entered for `Exception` / `KeyboardInterrupt` only -/
-def excOk : MainPc → Bool
-  | .excSet k | .excJoin k | .writing _ (.excSet k) => k.caught
-  | _ => true
 
 structure Inv (c : St) : Prop where
   joined : pastJoin c.main = true → c.spin = .done
@@ -172,31 +166,30 @@ structure Inv (c : St) : Prop where
   noErr : ∀ e, c.main ≠ .exited (.error e)
   flagIff : c.flag = true ↔ afterSet c.main = true
   doneFlag : c.spin = .done → c.flag = true
-  excOnly : excOk c.main = true
 
 theorem inv_init : Inv init := by
-  refine ⟨?_, ?_, ?_, ?_, ?_, ?_, ?_, ?_, ?_⟩ <;> simp [init, pastJoin, beforeSpawn, needsStarted, afterSet, excOk]
+  refine ⟨?_, ?_, ?_, ?_, ?_, ?_, ?_, ?_⟩ <;> simp [init, pastJoin, beforeSpawn, needsStarted, afterSet]
 
 /-- `advance()` in the spinner thread always finds the indicator started. -/
 theorem started_at_test {c : St} (h : Inv c) (hs : c.spin = .test) (hf : c.flag = false) : c.started = true := by
-  obtain ⟨h1, h2, h3, h4, h5, h6, h7, h8, h9⟩ := h
+  obtain ⟨h1, h2, h3, h4, h5, h6, h7, h8⟩ := h
   cases hm : c.main with
-  | exited o => cases o <;> simp_all [pastJoin, beforeSpawn, needsStarted, afterSet, excOk]
-  | _ => simp_all [pastJoin, beforeSpawn, needsStarted, afterSet, excOk]
+  | exited o => cases o <;> simp_all [pastJoin, beforeSpawn, needsStarted, afterSet]
+  | _ => simp_all [pastJoin, beforeSpawn, needsStarted, afterSet]
 
-theorem inv_stepSpin (old : Bool) (cfg : Cfg) (c : St) (h : Inv c) : Inv (stepSpin old cfg c) := by
+theorem inv_stepSpin (old : Proto) (cfg : Cfg) (c : St) (h : Inv c) : Inv (stepSpin old cfg c) := by
   have hst := started_at_test h
-  obtain ⟨h1, h2, h3, h4, h5, h6, h7, h8, h9⟩ := h
+  obtain ⟨h1, h2, h3, h4, h5, h6, h7, h8⟩ := h
   unfold stepSpin
   split
-  · exact ⟨h1, h2, h3, h4, h5, h6, h7, h8, h9⟩
-  · exact ⟨h1, h2, h3, h4, h5, h6, h7, h8, h9⟩
+  · exact ⟨h1, h2, h3, h4, h5, h6, h7, h8⟩
+  · exact ⟨h1, h2, h3, h4, h5, h6, h7, h8⟩
   all_goals
     repeat' split
   all_goals
-    refine ⟨?_, ?_, ?_, ?_, ?_, ?_, ?_, ?_, ?_⟩ <;> simp_all [toSleep]
+    refine ⟨?_, ?_, ?_, ?_, ?_, ?_, ?_, ?_⟩ <;> simp_all [toSleep]
 
-theorem inv_nextBody (old : Bool) (cfg : Cfg) (c : St) (rest : List BodyOp)
+theorem inv_nextBody (old : Proto) (cfg : Cfg) (c : St) (rest : List BodyOp)
     (hs : c.spin ≠ .notStarted) (hst : c.started = true) (hc : c.crashed = false)
     (hf : c.flag = false) (hd : c.spin ≠ .done) : Inv (nextBody old cfg c rest) := by
   unfold nextBody
@@ -204,85 +197,85 @@ theorem inv_nextBody (old : Bool) (cfg : Cfg) (c : St) (rest : List BodyOp)
   all_goals
     repeat' split
   all_goals
-    refine ⟨?_, ?_, ?_, ?_, ?_, ?_, ?_, ?_, ?_⟩ <;>
-      simp_all [pastJoin, beforeSpawn, needsStarted, afterSet, excOk]
+    refine ⟨?_, ?_, ?_, ?_, ?_, ?_, ?_, ?_⟩ <;>
+      simp_all [pastJoin, beforeSpawn, needsStarted, afterSet]
 
-theorem inv_contMain (old : Bool) (cfg : Cfg) (c : St) (p : List Str) (k : MainK)
+theorem inv_contMain (old : Proto) (cfg : Cfg) (c : St) (p : List Str) (k : MainK)
     (h : Inv { c with main := .writing p k }) : Inv (contMain old cfg c k) := by
-  obtain ⟨h1, h2, h3, h4, h5, h6, h7, h8, h9⟩ := h
+  obtain ⟨h1, h2, h3, h4, h5, h6, h7, h8⟩ := h
   cases k with
   | spawn =>
-    refine ⟨?_, ?_, ?_, ?_, ?_, ?_, ?_, ?_, ?_⟩ <;>
-      simp_all [contMain, pastJoin, beforeSpawn, needsStarted, afterSet, excOk]
+    refine ⟨?_, ?_, ?_, ?_, ?_, ?_, ?_, ?_⟩ <;>
+      simp_all [contMain, pastJoin, beforeSpawn, needsStarted, afterSet]
   | body rest =>
     simp only [contMain]
-    apply inv_nextBody <;> simp_all [pastJoin, beforeSpawn, needsStarted, afterSet, excOk]
+    apply inv_nextBody <;> simp_all [pastJoin, beforeSpawn, needsStarted, afterSet]
   | excSet k =>
-    refine ⟨?_, ?_, ?_, ?_, ?_, ?_, ?_, ?_, ?_⟩ <;>
-      simp_all [contMain, pastJoin, beforeSpawn, needsStarted, afterSet, excOk]
+    refine ⟨?_, ?_, ?_, ?_, ?_, ?_, ?_, ?_⟩ <;>
+      simp_all [contMain, pastJoin, beforeSpawn, needsStarted, afterSet]
   | finEnd =>
-    refine ⟨?_, ?_, ?_, ?_, ?_, ?_, ?_, ?_, ?_⟩ <;>
-      simp_all [contMain, pastJoin, beforeSpawn, needsStarted, afterSet, excOk]
+    refine ⟨?_, ?_, ?_, ?_, ?_, ?_, ?_, ?_⟩ <;>
+      simp_all [contMain, pastJoin, beforeSpawn, needsStarted, afterSet]
 
-theorem inv_stepMain (old : Bool) (cfg : Cfg) (c : St) (h : Inv c) : Inv (stepMain old cfg c) := by
+theorem inv_stepMain (old : Proto) (cfg : Cfg) (c : St) (h : Inv c) : Inv (stepMain old cfg c) := by
   unfold stepMain
   split
   · -- begin
-    obtain ⟨h1, h2, h3, h4, h5, h6, h7, h8, h9⟩ := h
+    obtain ⟨h1, h2, h3, h4, h5, h6, h7, h8⟩ := h
     split
     · simp_all
-    · refine ⟨?_, ?_, ?_, ?_, ?_, ?_, ?_, ?_, ?_⟩ <;>
-        simp_all [pastJoin, beforeSpawn, needsStarted, afterSet, excOk]
+    · refine ⟨?_, ?_, ?_, ?_, ?_, ?_, ?_, ?_⟩ <;>
+        simp_all [pastJoin, beforeSpawn, needsStarted, afterSet]
   · -- writing []
     rename_i k hm
     exact inv_contMain old cfg c [] k (by rw [← hm]; exact h)
   · -- writing [b]
     rename_i b k hm
     apply inv_contMain old cfg _ [b] k
-    obtain ⟨h1, h2, h3, h4, h5, h6, h7, h8, h9⟩ := h
-    refine ⟨?_, ?_, ?_, ?_, ?_, ?_, ?_, ?_, ?_⟩ <;> simp_all
+    obtain ⟨h1, h2, h3, h4, h5, h6, h7, h8⟩ := h
+    refine ⟨?_, ?_, ?_, ?_, ?_, ?_, ?_, ?_⟩ <;> simp_all
   · -- writing (b :: p)
     rename_i b p k hm hp
-    obtain ⟨h1, h2, h3, h4, h5, h6, h7, h8, h9⟩ := h
+    obtain ⟨h1, h2, h3, h4, h5, h6, h7, h8⟩ := h
     cases k <;>
-    (refine ⟨?_, ?_, ?_, ?_, ?_, ?_, ?_, ?_, ?_⟩ <;>
-      simp_all [pastJoin, beforeSpawn, needsStarted, afterSet, excOk])
+    (refine ⟨?_, ?_, ?_, ?_, ?_, ?_, ?_, ?_⟩ <;>
+      simp_all [pastJoin, beforeSpawn, needsStarted, afterSet])
   · -- spawn
     rename_i hm
-    obtain ⟨h1, h2, h3, h4, h5, h6, h7, h8, h9⟩ := h
-    apply inv_nextBody <;> simp_all [pastJoin, beforeSpawn, needsStarted, afterSet, excOk]
+    obtain ⟨h1, h2, h3, h4, h5, h6, h7, h8⟩ := h
+    apply inv_nextBody <;> simp_all [pastJoin, beforeSpawn, needsStarted, afterSet]
   · -- working
     rename_i w rest hm
     split
-    · obtain ⟨h1, h2, h3, h4, h5, h6, h7, h8, h9⟩ := h
-      apply inv_nextBody <;> simp_all [pastJoin, beforeSpawn, needsStarted, afterSet, excOk]
+    · obtain ⟨h1, h2, h3, h4, h5, h6, h7, h8⟩ := h
+      apply inv_nextBody <;> simp_all [pastJoin, beforeSpawn, needsStarted, afterSet]
     · exact h
   · -- excSet
-    obtain ⟨h1, h2, h3, h4, h5, h6, h7, h8, h9⟩ := h
-    refine ⟨?_, ?_, ?_, ?_, ?_, ?_, ?_, ?_, ?_⟩ <;>
-      simp_all [pastJoin, beforeSpawn, needsStarted, afterSet, excOk]
+    obtain ⟨h1, h2, h3, h4, h5, h6, h7, h8⟩ := h
+    refine ⟨?_, ?_, ?_, ?_, ?_, ?_, ?_, ?_⟩ <;>
+      simp_all [pastJoin, beforeSpawn, needsStarted, afterSet]
   · -- excJoin
     rename_i k hm
     have h' := h
-    obtain ⟨h1, h2, h3, h4, h5, h6, h7, h8, h9⟩ := h
+    obtain ⟨h1, h2, h3, h4, h5, h6, h7, h8⟩ := h
     split
-    · refine ⟨?_, ?_, ?_, ?_, ?_, ?_, ?_, ?_, ?_⟩ <;>
-        simp_all [pastJoin, beforeSpawn, needsStarted, afterSet, excOk]
+    · refine ⟨?_, ?_, ?_, ?_, ?_, ?_, ?_, ?_⟩ <;>
+        simp_all [pastJoin, beforeSpawn, needsStarted, afterSet]
     · split
-      · simp_all [pastJoin, beforeSpawn, needsStarted, afterSet, excOk]
+      · simp_all [pastJoin, beforeSpawn, needsStarted, afterSet]
       · exact h'
   · -- finSet
-    obtain ⟨h1, h2, h3, h4, h5, h6, h7, h8, h9⟩ := h
-    refine ⟨?_, ?_, ?_, ?_, ?_, ?_, ?_, ?_, ?_⟩ <;>
-      simp_all [pastJoin, beforeSpawn, needsStarted, afterSet, excOk]
+    obtain ⟨h1, h2, h3, h4, h5, h6, h7, h8⟩ := h
+    refine ⟨?_, ?_, ?_, ?_, ?_, ?_, ?_, ?_⟩ <;>
+      simp_all [pastJoin, beforeSpawn, needsStarted, afterSet]
   · -- finJoin
     have h' := h
-    obtain ⟨h1, h2, h3, h4, h5, h6, h7, h8, h9⟩ := h
+    obtain ⟨h1, h2, h3, h4, h5, h6, h7, h8⟩ := h
     split
-    · refine ⟨?_, ?_, ?_, ?_, ?_, ?_, ?_, ?_, ?_⟩ <;>
-        simp_all [pastJoin, beforeSpawn, needsStarted, afterSet, excOk]
+    · refine ⟨?_, ?_, ?_, ?_, ?_, ?_, ?_, ?_⟩ <;>
+        simp_all [pastJoin, beforeSpawn, needsStarted, afterSet]
     · split
-      · simp_all [pastJoin, beforeSpawn, needsStarted, afterSet, excOk]
+      · simp_all [pastJoin, beforeSpawn, needsStarted, afterSet]
       · exact h'
   · exact h
 
@@ -302,14 +295,14 @@ theorem bodyMsgs_tail (op : BodyOp) (r : List BodyOp) (m : Str) (h : m ∈ bodyM
   cases op <;> simp [bodyMsgs, h]
 
 theorem unit_frameWrites (cfg : Cfg) (c : St) (hm : c.message ∈ msgs cfg) :
-    ∀ b ∈ frameWrites false cfg (frameText cfg c), UnitW cfg b := by
+    ∀ b ∈ frameWrites .now cfg (frameText cfg c), UnitW cfg b := by
   intro b hb
   have hf : FrameText cfg (frameText cfg c) := ⟨c.current, c.message, hm, rfl⟩
   have := IsUnit.frame (ansi := cfg.ansi) (F := FrameText cfg) _ hf
   unfold frameWrites at hb
   cases ha : cfg.ansi <;> simp_all [UnitW]
 
-theorem frameWrites_len (cfg : Cfg) (t : Str) : (frameWrites false cfg t).length = 1 := by
+theorem frameWrites_len (cfg : Cfg) (t : Str) : (frameWrites .now cfg t).length = 1 := by
   unfold frameWrites; cases cfg.ansi <;> simp
 
 structure FInv (cfg : Cfg) (c : St) : Prop where
@@ -326,7 +319,7 @@ theorem finv_nextBody (cfg : Cfg) (c : St) (rest : List BodyOp)
     (h1 : ∀ w ∈ c.out, UnitW cfg w.2)
     (h3 : ∀ p, c.spin = .write p → (∀ b ∈ p, UnitW cfg b) ∧ p.length ≤ 1)
     (h4 : c.message ∈ msgs cfg)
-    (h5 : ∀ m ∈ bodyMsgs rest, m ∈ msgs cfg) : FInv cfg (nextBody false cfg c rest) := by
+    (h5 : ∀ m ∈ bodyMsgs rest, m ∈ msgs cfg) : FInv cfg (nextBody .now cfg c rest) := by
   unfold nextBody
   split
   · rename_i m r
@@ -355,7 +348,7 @@ theorem finv_nextBody (cfg : Cfg) (c : St) (rest : List BodyOp)
     · exact ⟨h1, by simp, h3, .inr h4, by simp [restOf, bodyMsgs]⟩
     · exact ⟨h1, by simp, h3, .inr h4, by simp [restOf, bodyMsgs]⟩
 
-theorem finv_stepSpin (cfg : Cfg) (c : St) (hi : Inv c) (h : FInv cfg c) : FInv cfg (stepSpin false cfg c) := by
+theorem finv_stepSpin (cfg : Cfg) (c : St) (hi : Inv c) (h : FInv cfg c) : FInv cfg (stepSpin .now cfg c) := by
   obtain ⟨h1, h2, h3, h4, h5⟩ := h
   have hmsg : c.spin ≠ .notStarted → c.message ∈ msgs cfg := by
     intro hs
@@ -401,7 +394,7 @@ theorem finv_stepSpin (cfg : Cfg) (c : St) (hi : Inv c) (h : FInv cfg c) : FInv 
     · exact ⟨h1, h2, h3, h4, h5⟩
 
 theorem finv_contMain (cfg : Cfg) (c : St) (p : List Str) (k : MainK)
-    (h : FInv cfg { c with main := .writing p k }) : FInv cfg (contMain false cfg c k) := by
+    (h : FInv cfg { c with main := .writing p k }) : FInv cfg (contMain .now cfg c k) := by
   obtain ⟨h1, h2, h3, h4, h5⟩ := h
   simp only at h1 h2 h3 h4 h5
   have hm : c.message ∈ msgs cfg := by
@@ -418,7 +411,7 @@ theorem startMsg_mem (cfg : Cfg) : cfg.startMsg ∈ msgs cfg := by simp [msgs]
 theorem endMsg_mem (cfg : Cfg) : cfg.endMsg ∈ msgs cfg := by simp [msgs]
 theorem bodyMsgs_mem (cfg : Cfg) (m : Str) (h : m ∈ bodyMsgs cfg.body) : m ∈ msgs cfg := by simp [msgs, h]
 
-theorem finv_stepMain (cfg : Cfg) (c : St) (hi : Inv c) (h : FInv cfg c) : FInv cfg (stepMain false cfg c) := by
+theorem finv_stepMain (cfg : Cfg) (c : St) (hi : Inv c) (h : FInv cfg c) : FInv cfg (stepMain .now cfg c) := by
   have h' := h
   obtain ⟨h1, h2, h3, h4, h5⟩ := h
   unfold stepMain
@@ -529,26 +522,26 @@ theorem finv_stepMain (cfg : Cfg) (c : St) (hi : Inv c) (h : FInv cfg c) : FInv 
 
 /-- Both invariants hold in every reachable configuration of the code as it is. -/
 theorem reach_inv (cfg : Cfg) (s : Schedule) : Inv (run cfg s init) ∧ FInv cfg (run cfg s init) := by
-  apply inv_runG (P := fun c => Inv c ∧ FInv cfg c) (old := false) (cfg := cfg)
+  apply inv_runG (P := fun c => Inv c ∧ FInv cfg c) (old := .now) (cfg := cfg)
   · intro c ch ⟨hi, hf⟩
     cases ch with
-    | main => exact ⟨inv_stepMain false cfg c hi, finv_stepMain cfg c hi hf⟩
-    | spin => exact ⟨inv_stepSpin false cfg c hi, finv_stepSpin cfg c hi hf⟩
+    | main => exact ⟨inv_stepMain .now cfg c hi, finv_stepMain cfg c hi hf⟩
+    | spin => exact ⟨inv_stepSpin .now cfg c hi, finv_stepSpin cfg c hi hf⟩
     | tick dt =>
-      obtain ⟨a1, a2, a3, a4, a5, a6, a7, a8, a9⟩ := hi
+      obtain ⟨a1, a2, a3, a4, a5, a6, a7, a8⟩ := hi
       obtain ⟨b1, b2, b3, b4, b5⟩ := hf
-      exact ⟨⟨a1, a2, a3, a4, a5, a6, a7, a8, a9⟩, ⟨b1, b2, b3, b4, b5⟩⟩
+      exact ⟨⟨a1, a2, a3, a4, a5, a6, a7, a8⟩, ⟨b1, b2, b3, b4, b5⟩⟩
   · exact ⟨inv_init, finv_init cfg⟩
 
-theorem reach_invG (old : Bool) (cfg : Cfg) (s : Schedule) : Inv (runG old cfg s init) := by
+theorem reach_invG (old : Proto) (cfg : Cfg) (s : Schedule) : Inv (runG old cfg s init) := by
   apply inv_runG (P := Inv) (old := old) (cfg := cfg)
   · intro c ch hi
     cases ch with
     | main => exact inv_stepMain old cfg c hi
     | spin => exact inv_stepSpin old cfg c hi
     | tick dt =>
-      obtain ⟨a1, a2, a3, a4, a5, a6, a7, a8, a9⟩ := hi
-      exact ⟨a1, a2, a3, a4, a5, a6, a7, a8, a9⟩
+      obtain ⟨a1, a2, a3, a4, a5, a6, a7, a8⟩ := hi
+      exact ⟨a1, a2, a3, a4, a5, a6, a7, a8⟩
   · exact inv_init
 
 /-! ### The end message is the last frame of a normal exit -/
@@ -564,15 +557,15 @@ def EInv (cfg : Cfg) (c : St) : Prop :=
   | .exited .normal => ∃ r, c.out = (.main, nl) :: (.main, endBytes cfg) :: r
   | _ => True
 
-theorem stepSpin_main (old : Bool) (cfg : Cfg) (c : St) : (stepSpin old cfg c).main = c.main := by
+theorem stepSpin_main (old : Proto) (cfg : Cfg) (c : St) : (stepSpin old cfg c).main = c.main := by
   unfold stepSpin
   repeat' split
   all_goals rfl
 
-theorem stepSpin_done (old : Bool) (cfg : Cfg) (c : St) (h : c.spin = .done) : stepSpin old cfg c = c := by
+theorem stepSpin_done (old : Proto) (cfg : Cfg) (c : St) (h : c.spin = .done) : stepSpin old cfg c = c := by
   unfold stepSpin; simp [h]
 
-theorem einv_stepSpin (old : Bool) (cfg : Cfg) (c : St) (hi : Inv c) (h : EInv cfg c) : EInv cfg (stepSpin old cfg c) := by
+theorem einv_stepSpin (old : Proto) (cfg : Cfg) (c : St) (hi : Inv c) (h : EInv cfg c) : EInv cfg (stepSpin old cfg c) := by
   by_cases hp : pastJoin c.main = true
   · rw [stepSpin_done old cfg c (hi.joined hp)]; exact h
   · unfold EInv
@@ -582,17 +575,17 @@ theorem einv_stepSpin (old : Bool) (cfg : Cfg) (c : St) (hi : Inv c) (h : EInv c
     · rename_i hm; simp [hm, pastJoin] at hp
     · trivial
 
-theorem einv_nextBody (cfg : Cfg) (c : St) (rest : List BodyOp) : EInv cfg (nextBody false cfg c rest) := by
+theorem einv_nextBody (cfg : Cfg) (c : St) (rest : List BodyOp) : EInv cfg (nextBody .now cfg c rest) := by
   unfold nextBody
   repeat' split
   all_goals simp [EInv]
 
 theorem frameWrites_end (cfg : Cfg) (c : St) :
-    frameWrites false cfg (frameText cfg { c with message := cfg.endMsg, current := 0 }) = [endBytes cfg] := by
+    frameWrites .now cfg (frameText cfg { c with message := cfg.endMsg, current := 0 }) = [endBytes cfg] := by
   unfold frameWrites endBytes frameText endText
   cases cfg.ansi <;> simp
 
-theorem einv_stepMain (cfg : Cfg) (c : St) (h : EInv cfg c) : EInv cfg (stepMain false cfg c) := by
+theorem einv_stepMain (cfg : Cfg) (c : St) (h : EInv cfg c) : EInv cfg (stepMain .now cfg c) := by
   unfold stepMain
   split
   · split <;> simp [EInv]
@@ -643,14 +636,14 @@ theorem einv_stepMain (cfg : Cfg) (c : St) (h : EInv cfg c) : EInv cfg (stepMain
   · exact h
 
 theorem reach_einv (cfg : Cfg) (s : Schedule) : EInv cfg (run cfg s init) := by
-  have := inv_runG (P := fun c => Inv c ∧ EInv cfg c) (old := false) (cfg := cfg) (by
+  have := inv_runG (P := fun c => Inv c ∧ EInv cfg c) (old := .now) (cfg := cfg) (by
     intro c ch ⟨hi, he⟩
     cases ch with
-    | main => exact ⟨inv_stepMain false cfg c hi, einv_stepMain cfg c he⟩
-    | spin => exact ⟨inv_stepSpin false cfg c hi, einv_stepSpin false cfg c hi he⟩
+    | main => exact ⟨inv_stepMain .now cfg c hi, einv_stepMain cfg c he⟩
+    | spin => exact ⟨inv_stepSpin .now cfg c hi, einv_stepSpin .now cfg c hi he⟩
     | tick dt =>
-      obtain ⟨a1, a2, a3, a4, a5, a6, a7, a8, a9⟩ := hi
-      exact ⟨⟨a1, a2, a3, a4, a5, a6, a7, a8, a9⟩, he⟩) s init ⟨inv_init, by simp [EInv, init]⟩
+      obtain ⟨a1, a2, a3, a4, a5, a6, a7, a8⟩ := hi
+      exact ⟨⟨a1, a2, a3, a4, a5, a6, a7, a8⟩, he⟩) s init ⟨inv_init, by simp [EInv, init]⟩
   exact this.2
 
 /-! ### Once the event is set the spinner stops within a fixed number of its own steps -/
@@ -663,11 +656,11 @@ def rank : SpinPc → Nat
   | .write p => 3 + p.length
 
 /-- number of spinner steps of a schedule that were enabled when chosen -/
-def effSpin (old : Bool) (cfg : Cfg) : Schedule → St → Nat
+def effSpin (old : Proto) (cfg : Cfg) : Schedule → St → Nat
   | [], _ => 0
   | ch :: s, c => (if ch = .spin ∧ enabledSpin c = true then 1 else 0) + effSpin old cfg s (stepG old cfg c ch)
 
-theorem stepMain_flag (old : Bool) (cfg : Cfg) (c : St) (h : c.flag = true) : (stepMain old cfg c).flag = true := by
+theorem stepMain_flag (old : Proto) (cfg : Cfg) (c : St) (h : c.flag = true) : (stepMain old cfg c).flag = true := by
   have nb : ∀ (c : St) r, c.flag = true → (nextBody old cfg c r).flag = true := by
     intro c r hc; unfold nextBody; repeat' split
     all_goals exact hc
@@ -681,7 +674,7 @@ theorem stepMain_flag (old : Bool) (cfg : Cfg) (c : St) (h : c.flag = true) : (s
   repeat' split
   all_goals first | exact h | rfl | (apply cm; exact h) | (apply nb; exact h)
 
-theorem stepMain_spin (old : Bool) (cfg : Cfg) (c : St) (hs : c.spin ≠ .notStarted) : (stepMain old cfg c).spin = c.spin := by
+theorem stepMain_spin (old : Proto) (cfg : Cfg) (c : St) (hs : c.spin ≠ .notStarted) : (stepMain old cfg c).spin = c.spin := by
   have nb : ∀ (c : St) r, (nextBody old cfg c r).spin = c.spin := by
     intro c r; unfold nextBody; repeat' split
     all_goals rfl
@@ -696,7 +689,7 @@ theorem stepMain_spin (old : Bool) (cfg : Cfg) (c : St) (hs : c.spin ≠ .notSta
     | (rw [nb]; rename_i h; simp at h; exact absurd h hs)
     | (rw [nb]; done)
 
-theorem stepSpin_rank (old : Bool) (cfg : Cfg) (c : St) (hf : c.flag = true) :
+theorem stepSpin_rank (old : Proto) (cfg : Cfg) (c : St) (hf : c.flag = true) :
     (stepSpin old cfg c).flag = true ∧ (c.spin ≠ .notStarted → (stepSpin old cfg c).spin ≠ .notStarted) ∧
     (if enabledSpin c = true then rank (stepSpin old cfg c).spin < rank c.spin ∨ (stepSpin old cfg c).spin = .done
      else stepSpin old cfg c = c) := by
@@ -707,7 +700,7 @@ theorem stepSpin_rank (old : Bool) (cfg : Cfg) (c : St) (hf : c.flag = true) :
 
 /-- From any configuration with the event set, `rank` enabled spinner steps - at most 4 in the code as it
 is, see `rank_le_four` - bring the spinner to `done`, whatever else the schedule does in between. -/
-theorem spin_done_within (old : Bool) (cfg : Cfg) : ∀ (s : Schedule) (c : St), c.flag = true → c.spin ≠ .notStarted →
+theorem spin_done_within (old : Proto) (cfg : Cfg) : ∀ (s : Schedule) (c : St), c.flag = true → c.spin ≠ .notStarted →
     rank c.spin ≤ effSpin old cfg s c → (runG old cfg s c).spin = .done := by
   intro s
   induction s with
@@ -759,7 +752,7 @@ theorem rank_le_four (cfg : Cfg) (s : Schedule) : rank (run cfg s init).spin ≤
 /-- the single stream write of a frame in the code as it is -/
 def frameBytes (cfg : Cfg) (text : Str) : Str := if cfg.ansi then crEl ++ text else text ++ nl
 
-theorem frameWrites_false (cfg : Cfg) (t : Str) : frameWrites false cfg t = [frameBytes cfg t] := by
+theorem frameWrites_false (cfg : Cfg) (t : Str) : frameWrites .now cfg t = [frameBytes cfg t] := by
   unfold frameWrites frameBytes; cases cfg.ansi <;> simp
 
 theorem mdisplay_eq (cfg : Cfg) (k : MKind) (c : MSt) :
@@ -901,5 +894,54 @@ theorem afterSet_not_beforeSpawn (pc : MainPc) (h : afterSet pc = true) : before
   cases pc with
   | writing p k => cases k <;> simp_all [afterSet, beforeSpawn]
   | _ => simp_all [afterSet, beforeSpawn]
+
+/-! ### No exception escapes `auto()` unhandled (code as it is); a left block stays left -/
+
+/-- the `except` clause of the code as it is (regenerated into `Gen.C19.caught`) catches every kind -/
+theorem caughtBy_now (k : ExcKind) : caughtBy .now k = true := by
+  cases k <;> decide
+
+def notEscaped : MainPc → Bool
+  | .exited (.escaped _) => false
+  | _ => true
+
+theorem notEscaped_step (old : Proto) (cfg : Cfg) (hc : ∀ k, caughtBy old k = true) (c : St) (ch : Choice)
+    (h : notEscaped c.main = true) : notEscaped (stepG old cfg c ch).main = true := by
+  have nb : ∀ (c : St) r, notEscaped (nextBody old cfg c r).main = true := by
+    intro c r; unfold nextBody; repeat' split
+    all_goals simp_all [notEscaped]
+  have cm : ∀ (c : St) k, notEscaped (contMain old cfg c k).main = true := by
+    intro c k; cases k <;> simp only [contMain]
+    · rfl
+    · exact nb c _
+    · rfl
+    · rfl
+  cases ch with
+  | tick dt => exact h
+  | spin => simp only [stepG]; rw [stepSpin_main]; exact h
+  | main =>
+    simp only [stepG]
+    unfold stepMain
+    repeat' split
+    all_goals first | exact h | rfl | exact cm _ _ | exact nb _ _
+
+theorem reach_notEscaped (cfg : Cfg) (s : Schedule) : notEscaped (run cfg s init).main = true :=
+  inv_runG (P := fun c => notEscaped c.main = true) (old := .now) (cfg := cfg)
+    (fun c ch h => notEscaped_step .now cfg caughtBy_now c ch h) s init rfl
+
+/-- once the block is left, main's pc never changes again -/
+theorem exited_stable (old : Proto) (cfg : Cfg) (o : Outcome) : ∀ (s : Schedule) (c : St), c.main = .exited o →
+    (runG old cfg s c).main = .exited o := by
+  intro s
+  induction s with
+  | nil => intro c h; exact h
+  | cons ch r ih =>
+    intro c h
+    rw [runG_cons]
+    apply ih
+    cases ch with
+    | tick dt => exact h
+    | spin => simp only [stepG]; rw [stepSpin_main]; exact h
+    | main => simp only [stepG]; unfold stepMain; simp [h]
 
 end Clikit.Spinner
